@@ -18,6 +18,9 @@ PROBE = '__probe__'
 
 
 # ---------------------------------------------------------------- values
+import warnings as _warnings
+_warnings.filterwarnings('ignore', message='the validator .* has a signature that only takes a single argument')
+
 def to_py(v):
     if v[0] == 'A':
         if v[1] == 3:
@@ -81,9 +84,14 @@ def mentions_py(value, n):
     return atom_id(value) == n
 
 
-def mk_validator(n):
-    def validator(value, port):
-        return 'rejected' if mentions_py(value, n) else None
+def mk_validator(n, one_arg=False):
+    """`validator(value, port)`; with `one_arg` the deprecated but supported signature `validator(value)`"""
+    if one_arg:
+        def validator(value):
+            return 'rejected' if mentions_py(value, n) else None
+    else:
+        def validator(value, port):
+            return 'rejected' if mentions_py(value, n) else None
     validator.n = n
     return validator
 
@@ -112,7 +120,7 @@ def set_ns_attrs(ns, required, ty, dynamic, validator):
     ns.required = required
     ns.valid_type = None if ty is None else TYPES[ty]      # the setter forces dynamic=True when a type is given
     ns.dynamic = dynamic
-    ns.validator = None if validator is None else mk_validator(validator)
+    ns.validator = None if validator is None else mk_validator(validator, one_arg=validator % 2 == 1)
 
 
 def build_ports(ns, sub, output=False):
@@ -121,7 +129,7 @@ def build_ports(ns, sub, output=False):
     for k, p in sub:
         if p[0] == 'L':
             kw = dict(required=p[1], valid_type=None if p[2] is None else TYPES[p[2]],
-                      validator=None if p[5] is None else mk_validator(p[5]))
+                      validator=None if p[5] is None else mk_validator(p[5], one_arg=p[5] % 2 == 0))
             if output:
                 ns[k] = ports.OutputPort(k, **kw)
                 continue
@@ -258,7 +266,7 @@ def declared_ns_paths(sub, tree, prefix=()):
 
 
 # ---------------------------------------------------------------- enumeration of small specs
-LEAF_DEFAULTS = [(None, False), (('A', 0, 1), False), (('A', 0, 1), True), (('A', 1, 1), True)]
+LEAF_DEFAULTS = [(None, False), (('A', 0, 1), False), (('A', 0, 1), True), (('A', 1, 1), True), (('A', 3, 0), False)]   # last: default=None
 
 
 def leaf_variants(full=True):
@@ -352,6 +360,8 @@ def gen_port(rng, depth, budget, output=False):
                 d = ('A', good_ty, rng.randint(0, 3))
             if c and rng.random() < 0.25:                 # a callable default is not checked at declaration: may be invalid
                 d = ('A', rng.randint(0, 1), rng.randint(0, 3))
+            if rng.random() < 0.12:
+                d = ('A', 3, 0)                           # a declared default of None (plain or callable) IS a default
         vd = optn(rng, 0.25, 3)
         if d is not None and not c and vd is not None and ref_mentions(d, vd) and rng.random() < 0.9:
             vd = None                                      # mostly avoid plain defaults that the port's own validator rejects
